@@ -188,8 +188,14 @@ func generateMore(w *bufio.Writer, r *rand.Rand, kind string, n int, args []stri
 			if cfg.m > 1<<20 {
 				cfg.m = 55440 // the listing needs a simulator, i.e. an allocated core
 			}
+			if r.Intn(3) == 0 {
+				// odd core sizes: the signed rendering of a field has no middle value to spare
+				odd := []int64{9, 11, 25, 81, 257, 7999, 8191, 55441}
+				cfg.m = odd[r.Intn(len(odd))]
+			}
 			ln := 1 + r.Intn(8)
-			c := []int64{12, mode, cfg.m, int64(r.Intn(ln)), int64(ln)}
+			// cfg.mode: NOP94 (1) is the '94 dialect too, and must be listed like it
+			c := []int64{12, cfg.mode, cfg.m, int64(r.Intn(ln)), int64(ln)}
 			for i := 0; i < ln; i++ {
 				c = append(c, genLegalInstr(r, mode, cfg.m)...)
 			}
